@@ -100,8 +100,21 @@ NLink(L, p) ==
     ELSE 1 + Cardinality({j \in DOMAIN L : L[j].t = "hardlink" /\ Src(L, j) = Ident(L, p)})
 
 SymTarget == "../x"
+(* modification time a node shows (UTC, RFC 3339 with nano seconds; "" = zero time) per attribute profile. The     *)
+(* "t..." profiles carry nothing but a modtime: years outside 1678..2262 (not representable as int64 nano seconds  *)
+(* since 1970), a +09:00 zone offset ("2020-01-02T12:04:05+09:00"), sub-second precision, the zero time.          *)
+MTimeOf(at) ==
+    CASE at = "f" -> "2020-01-02T03:04:05Z"
+      [] at = "t1600" -> "1600-01-01T00:00:00Z"
+      [] at = "t1677" -> "1677-09-21T00:00:00Z"
+      [] at = "t2263" -> "2263-01-01T00:00:00Z"
+      [] at = "t2500" -> "2500-06-15T12:00:00Z"
+      [] at = "t2999" -> "2999-12-31T23:59:59Z"
+      [] at = "tz9" -> "2020-01-02T03:04:05Z"
+      [] at = "tsub" -> "2020-01-02T03:04:05.123456789Z"
+      [] OTHER -> ""                                   \* "z", "e", "t0001" (explicit zero time)
 ImplicitAttr == [ty |-> "dir", perm |-> 493, sb |-> 0, size |-> 0, uid |-> 0, gid |-> 0, link |-> "",
-                 maj |-> 0, min |-> 0, mtime |-> 0, xa |-> <<>>]
+                 maj |-> 0, min |-> 0, mt |-> "", xa |-> <<>>]
 EntryAttr(e) ==
     [ty |-> e.t,
      perm |-> CASE e.at = "f" -> 493 [] e.at = "e" -> 384 [] OTHER -> 0,
@@ -112,7 +125,7 @@ EntryAttr(e) ==
      link |-> IF e.t = "symlink" THEN SymTarget ELSE "",
      maj |-> IF e.t \in {"char", "block"} THEN 1 ELSE 0,
      min |-> IF e.t \in {"char", "block"} THEN 2 ELSE 0,
-     mtime |-> IF e.at = "f" THEN 1577934245 ELSE 0,
+     mt |-> MTimeOf(e.at),
      xa |-> CASE e.at = "f" -> << <<"k1", "v1">> >>
               [] e.at = "e" -> << <<"k1", "">>, <<"k2", "">> >>
               [] OTHER -> <<>>]
@@ -184,6 +197,11 @@ PreRead(L, i) ==
     LET mine == {ChunksOf(L, i)[k] : k \in DOMAIN ChunksOf(L, i)}
         all == UNION {{[i |-> j, c |-> ChunksOf(L, j)[k]] : k \in DOMAIN ChunksOf(L, j)} : j \in DOMAIN L}
     IN {x \in all : \E m \in mine : m.st = x.c.st /\ ~(x.i = i /\ x.c.k = m.k)}
+
+(* BigToc(n): a fixed family outside the enumerated space - one directory "big" with n empty regular files - used *)
+(* for the clone-early stage: Clone is called immediately after NewReader returned (the db store may still be     *)
+(* parsing the TOC in the background) and the CLONE is walked. What it must show:                                 *)
+EarlyCloneRef(n) == [open |-> "ok", clone |-> "ok", rootkids |-> 1, bigkids |-> n, nodes |-> n + 2]
 
 DigestLabel(L, w) == "J"        \* TOC digest = hash of all bytes of the TOC JSON file
 Accept(L) == TRUE               \* every TOC of the conforming space is a valid layer
